@@ -160,6 +160,17 @@ CHECKS['C07'] = dict(
     design_ref='DESIGN.md section 6, C07',
     technique='Coq proof (potential-function invariants over all histories of the endpoint model) + in-Coq trace correspondence with a real endpoint')
 
+CHECKS['C10'] = dict(
+    text='Theorems (props/C10.v), each for ANY state in which the ending occurs: after response/error/cancel of a request-response '
+         '(both roles), completion (flagged or empty)/error/cancel of a request-stream (both roles), both directions of a channel '
+         'complete in either order, and fire-and-forget, the stream has no table entry and no partial frame (id reusable); a half-closed '
+         'channel keeps its entry; the close sweep empties the table from every reachable state. REFUTED for abnormal channel endings '
+         '(ERROR/CANCEL close one direction only): witnesses in props/C10.v, recorded as known finding KF-C10-channel-abnormal-end. '
+         'Tied to the code by comparing the key sets of the real stream table and reassembly cache with the model after every atomic '
+         'section of recorded legal histories (all endings, races, fragmentation), plus the quiescence oracle.',
+    design_ref='DESIGN.md section 6, C10',
+    technique='Coq proof (per-ending theorems and close-sweep theorem on the endpoint model; refutation witnesses for the recorded finding) + in-Coq trace correspondence of table/cache key sets with a real endpoint')
+
 NOT_YET = {}
 
 def main():
